@@ -266,4 +266,122 @@ theorem IdsLt_afterFree {h : Heap} (b : Nat) (k : Kind) (n : Nat) (w : IdsLt h) 
   simp only [ids_afterFree, List.mem_filter] at hx
   simpa using w x hx.1
 
+/-! ### sequencing after a program whose safety was shown for this very heap -/
+
+theorem SafeF.bind_safe {α β} {S} {h : Heap} {m : M α} {Q1 : α → Heap → Prop} {f : α → M β} {Q : β → Heap → Prop}
+    (s : SafeF S h (m h) Q1) (k : ∀ a h1, Q1 a h1 → Frame S h h1 → SafeF S h1 (f a h1) Q) :
+    SafeF S h ((m >>= f) h) Q := by
+  rw [bind_eq]
+  cases hm : m h with
+  | error e =>
+    rw [hm] at s
+    cases e <;> simp_all [SafeX, SafeF]
+  | ok r =>
+    obtain ⟨a, h'⟩ := r
+    rw [hm] at s
+    obtain ⟨hq, hfr⟩ := s
+    exact (k a h' hq hfr).rebase hfr
+
+theorem step_pure {α β} {S} {h : Heap} (a : α) {f : α → M β} {Q : β → Heap → Prop} (s : SafeF S h (f a h) Q) :
+    SafeF S h (((pure a : M α) >>= f) h) Q := s
+
+/-! ### relational single-cell updates: `h'` is `h` with cell `(b, i)` replaced by `c'` (and possibly a longer log) -/
+
+structure Upd (h h' : Heap) (b i : Nat) (c' : Cell) : Prop where
+  next : h'.next = h.next
+  ids : h'.ids = h.ids
+  out : ∀ b', b' ≠ b → h'.find? b' = h.find? b'
+  cell : h'.cell? b i = some c'
+  other : ∀ j, j ≠ i → h'.cell? b j = h.cell? b j
+  count : h'.count? b = h.count? b
+
+theorem Upd.of_setCell {h : Heap} {b i : Nat} {c : Cell} (hc : h.cell? b i = some c) (c' : Cell) :
+    Upd h (h.setCell b i c') b i c' :=
+  ⟨rfl, ids_setCell _ _ _ _, fun _ hb => find?_setCell_ne h i c' hb, cell?_setCell_eq c' hc,
+    fun j hj => cell?_setCell_ne _ _ _ _ (fun hh => hj hh.2), count?_setCell _ _ _ _ _⟩
+
+theorem Upd.addLog {h h' : Heap} {b i : Nat} {c' : Cell} (u : Upd h h' b i c') (e : Ev) : Upd h (h'.addLog e) b i c' :=
+  ⟨u.next, u.ids, u.out, u.cell, u.other, u.count⟩
+
+theorem Upd.cell_ne {h h' : Heap} {b i : Nat} {c' : Cell} (u : Upd h h' b i c') {b' j : Nat} (hne : ¬ (b' = b ∧ j = i)) :
+    h'.cell? b' j = h.cell? b' j := by
+  by_cases hb : b' = b
+  · subst hb; exact u.other j (fun e => hne ⟨rfl, e⟩)
+  · exact cell?_congr (u.out b' hb) j
+
+theorem Upd.wordAt_ne {h h' : Heap} {b i : Nat} {c' : Cell} (u : Upd h h' b i c') {b' j : Nat} (hne : ¬ (b' = b ∧ j = i)) :
+    wordAt h' b' j = wordAt h b' j := by
+  simp only [wordAt, u.cell_ne hne]
+
+theorem Upd.stAt_ne {h h' : Heap} {b i : Nat} {c' : Cell} (u : Upd h h' b i c') {b' j : Nat} (hne : ¬ (b' = b ∧ j = i)) :
+    stAt h' b' j = stAt h b' j := by
+  simp only [stAt, u.cell_ne hne]
+
+theorem Upd.wordAt_eq {h h' : Heap} {b i : Nat} {c' : Cell} (u : Upd h h' b i c') : wordAt h' b i = c'.word :=
+  wordAt_of u.cell
+
+theorem Upd.stAt_eq {h h' : Heap} {b i : Nat} {c' : Cell} (u : Upd h h' b i c') : stAt h' b i = c'.st :=
+  stAt_of u.cell
+
+/-- an update that keeps the word keeps all words -/
+theorem Upd.wordAt_same {h h' : Heap} {b i : Nat} {c c' : Cell} (u : Upd h h' b i c') (hc : h.cell? b i = some c)
+    (hw : c'.word = c.word) (b' j : Nat) : wordAt h' b' j = wordAt h b' j := by
+  by_cases hne : b' = b ∧ j = i
+  · obtain ⟨rfl, rfl⟩ := hne
+    rw [u.wordAt_eq, wordAt_of hc, hw]
+  · exact u.wordAt_ne hne
+
+/-- an update that keeps the state keeps all states -/
+theorem Upd.stAt_same {h h' : Heap} {b i : Nat} {c c' : Cell} (u : Upd h h' b i c') (hc : h.cell? b i = some c)
+    (hw : c'.st = c.st) (b' j : Nat) : stAt h' b' j = stAt h b' j := by
+  by_cases hne : b' = b ∧ j = i
+  · obtain ⟨rfl, rfl⟩ := hne
+    rw [u.stAt_eq, stAt_of hc, hw]
+  · exact u.stAt_ne hne
+
+theorem Upd.count_all {h h' : Heap} {b i : Nat} {c' : Cell} (u : Upd h h' b i c') (b' : Nat) :
+    h'.count? b' = h.count? b' := by
+  by_cases hb : b' = b
+  · subst hb; exact u.count
+  · exact count?_congr (u.out b' hb)
+
+theorem Upd.hasCells {h h' : Heap} {b i : Nat} {c' : Cell} (u : Upd h h' b i c') {b' n : Nat} (hc : HasCells h b' n) :
+    HasCells h' b' n := by
+  simpa only [HasCells, u.count_all b'] using hc
+
+theorem Upd.idsLt {h h' : Heap} {b i : Nat} {c' : Cell} (u : Upd h h' b i c') (w : IdsLt h) : IdsLt h' := by
+  intro x hx; rw [u.next]; exact w x (u.ids ▸ hx)
+
+theorem stepR_writeWord {β} {S} {h : Heap} {b i : Nat} {c : Cell} (w : Nat) {f : Unit → M β} {Q : β → Heap → Prop}
+    (hc : h.cell? b i = some c) (hS : S b = true)
+    (s : ∀ h', Upd h h' b i { c with word := w } → SafeF S h' (f () h') Q) :
+    SafeF S h ((writeWord b i w >>= f) h) Q :=
+  step_writeWord w hc hS (s _ (Upd.of_setCell hc _))
+
+theorem stepR_construct {β} {S} {h : Heap} {b i : Nat} {c : Cell} (v : Nat) {f : Unit → M β} {Q : β → Heap → Prop}
+    (hc : h.cell? b i = some c) (hr : c.st = .raw) (hS : S b = true)
+    (s : ∀ h', Upd h h' b i { c with st := .live v } → SafeF S h' (f () h') Q) :
+    SafeF S h ((construct b i v >>= f) h) Q :=
+  step_construct v hc hr hS (fun e => s _ ((Upd.of_setCell hc _).addLog e))
+
+theorem stepR_destroy {β} {S} {h : Heap} {b i : Nat} {c : Cell} {f : Unit → M β} {Q : β → Heap → Prop}
+    (hc : h.cell? b i = some c) (hr : c.st ≠ .raw) (hS : S b = true)
+    (s : ∀ h', Upd h h' b i { c with st := .raw } → SafeF S h' (f () h') Q) :
+    SafeF S h ((destroy b i >>= f) h) Q :=
+  step_destroy hc hr hS (fun e => s _ ((Upd.of_setCell hc _).addLog e))
+
+theorem stepR_moveFrom {β} {S} {h : Heap} {b i : Nat} {c : Cell} {v : Nat} {f : Nat → M β} {Q : β → Heap → Prop}
+    (hc : h.cell? b i = some c) (hl : c.st = .live v) (hS : S b = true)
+    (s : ∀ h', Upd h h' b i { c with st := .moved } → SafeF S h' (f v h') Q) :
+    SafeF S h ((moveFrom b i >>= f) h) Q :=
+  step_moveFrom hc hl hS (s _ (Upd.of_setCell hc _))
+
+theorem moveConstruct_bind {β} (sb si db di : Nat) (f : Unit → M β) :
+    (moveConstruct sb si db di >>= f) = (moveFrom sb si >>= fun v => construct db di v >>= f) := by
+  unfold moveConstruct; rw [bind_assoc_M]
+
+theorem copyConstruct_bind {β} (sb si db di : Nat) (f : Unit → M β) :
+    (copyConstruct sb si db di >>= f) = (read sb si >>= fun v => construct db di v >>= f) := by
+  unfold copyConstruct; rw [bind_assoc_M]
+
 end DS.Life
